@@ -91,6 +91,7 @@ def c02(rec, tier):
     f2_emit.run_twins(rec, S)
     f2_emit.run_declare_define(rec, S)
     f2_visit.run(rec, S)
+    f2_visit.run_order(rec, S)
     f4_obj.run_closures(rec, F)
     # a captured variable lives as long as a closure or a running frame refers to it
     f5_trace.run(rec, F, only_adts=("laythe_core::object::closure::Closure", "laythe_core::captures::Captures", "laythe_core::object::ly_box::LyBox", "laythe_vm::fiber::call_frame::CallFrame", "laythe_vm::fiber::Fiber"))
@@ -178,6 +179,10 @@ def c15(rec, tier):
     f2_emit.run_parser_function_context(rec, S)
     f9_empty.run(rec, F)
     f1c_ops.run_number_tokens(rec, F)
+    f2_visit.run_order(rec, S)
+    f9_empty.run_line_narrowing(rec, F)
+    # the peephole pass is part of the front end: its counters are bounded (P6), its windows total
+    f11_peephole.run(rec, F, S)
 
 
 def SY(rec):
@@ -263,6 +268,7 @@ def c18(rec, tier):
     T = f1_isa.run_tables(rec, F)
     f1_isa.run_width(rec, F, T)
     f1c_ops.run_scanner_lines(rec, SY(rec))
+    f9_empty.run_line_narrowing(rec, F)
     # the error object, its message and its backtrace must survive the allocations that build them
     f8_hazards.run(rec, F, only=r"op_finish_unwind|finish_unwind|error_backtrace|print_error|<impl laythe_vm::vm::Vm>::runtime_error|stack_unwind|pause_unwind|set_error")
 
